@@ -1,10 +1,10 @@
 (* C10 — kernel algebra is pointwise algebra (statements only).
    General family: over Coq's reals about the GENERATED Sum / Product / Constant (any leaves, any tree depth).
    Quasiseparable family: over any field, generic in the kernels (h, Pinf, A): scaling and sums
-   (products: exact correspondence of the Kronecker index map + oracle, see DESIGN.md). *)
+   and products (Kronecker-style state). *)
 From mathcomp Require Import all_ssreflect all_algebra.
 From Coq Require Import Reals.
-From TinyGP Require Import Base.Ops Base.LMat Model.SSKernel Model.Guards Theory.MxRefine Theory.SSK Theory.SSKAlgebra
+From TinyGP Require Import Base.Ops Base.LMat Model.SSKernel Model.Guards Theory.MxRefine Theory.SSK Theory.SSKAlgebra Theory.SSKKron
   Theory.GuardsThy W2.RLib Gen.Kernels_gen W2.Algebra.
 Set Implicit Arguments. Unset Strict Implicit. Unset Printing Implicit Defensive.
 
@@ -22,6 +22,12 @@ Theorem C10_qs_sum_pointwise (F : fieldType) sq lt (X : Type) (k1 k2 : sskernel 
   ss_evaluate (fops sq lt) (ss_sum (fops sq lt) k1 k2) x y
   = GRing.add (ss_evaluate (fops sq lt) k1 x y) (ss_evaluate (fops sq lt) k2 x y).
 Proof. exact: qs_sum_pointwise. Qed.
+(* product: Kronecker-style state with the code's index map t |-> (t mod m1, t div m1), any state dimensions *)
+Theorem C10_qs_product_pointwise (F : fieldType) sq lt (X : Type) (k1 k2 : sskernel F X) x y :
+  (forall a b, sslt k2 a b = sslt k1 a b) ->
+  ss_evaluate (fops sq lt) (ss_prod (fops sq lt) k1 k2) x y
+  = GRing.mul (ss_evaluate (fops sq lt) k1 x y) (ss_evaluate (fops sq lt) k2 x y).
+Proof. exact: qs_product_pointwise. Qed.
 (* a quasiseparable expression stays quasiseparable (the model combinators return sskernel values of dimension m1+m2 / m1*m2 / m) *)
 Theorem C10_qs_expr_is_qs (F : Type) (K : Ops F) (X : Type) (s : F) (k1 k2 : sskernel F X) :
   [/\ ssm (ss_sum K k1 k2) = addn (ssm k1) (ssm k2), ssm (ss_prod K k1 k2) = muln (ssm k1) (ssm k2) & ssm (ss_scale K s k1) = ssm k1].
@@ -33,4 +39,5 @@ Theorem C10_mixing_never_qs o r :
 Proof. exact: qs_mixing_table. Qed.
 Print Assumptions C10_general_expr_pointwise.
 Print Assumptions C10_qs_sum_pointwise.
+Print Assumptions C10_qs_product_pointwise.
 Print Assumptions C10_qs_scale_pointwise.
